@@ -481,7 +481,9 @@ def gen(ctx, i, cls):
     id_a = "gapped"
     id_b = "gapped"
     if cls == "ids_tomos_hostile":
-        id_a, id_b = str(rng.choice(["gapped", "huge", "contiguous", "big_adjacent"])), str(rng.choice(["per_tomogram", "contiguous", "gapped", "huge", "big_adjacent"]))
+        id_a, id_b = str(rng.choice(["gapped", "huge", "contiguous", "big_adjacent"])), str(rng.choice(["per_tomogram", "per_tomogram", "per_tomogram", "contiguous", "gapped", "huge", "big_adjacent"]))
+    elif rng.random() < 0.12:
+        id_b = "per_tomogram"          # neighbour numbers restart in every tomogram (lists merged without renumbering)
     elif rng.random() < 0.15:
         id_a = id_b = "big_adjacent"
     elif rng.random() < 0.2:
